@@ -118,6 +118,8 @@ pub struct State {
     pub stopped: bool,
     /// Snapshot of the path of the most recently finished execution
     pub last_path: Vec<Node>,
+    /// Paths (and whether Stop was chosen) of all executions finished since the queue was last drained
+    pub finished: Vec<(Vec<Node>, bool)>,
 }
 
 #[derive(Clone)]
@@ -143,6 +145,7 @@ impl Explorer {
                 started_in_run: 0,
                 stopped: false,
                 last_path: Vec::new(),
+                finished: Vec::new(),
             })),
         }
     }
@@ -158,6 +161,14 @@ impl Explorer {
         let mut s = self.st.borrow_mut();
         s.finish_execution();
         !s.exhausted
+    }
+
+    pub fn set_executions_per_run(&self, n: usize) {
+        self.st.borrow_mut().executions_per_run = n;
+    }
+
+    pub fn drain_finished(&self) -> Vec<(Vec<Node>, bool)> {
+        std::mem::take(&mut self.st.borrow_mut().finished)
     }
 
     pub fn exhausted(&self) -> bool {
@@ -214,6 +225,7 @@ impl State {
         let reached = self.pos;
         self.stack.truncate(reached);
         self.last_path = self.stack.clone();
+        self.finished.push((self.last_path.clone(), self.stopped));
         // backtrack
         loop {
             if self.stack.len() <= self.floor {
